@@ -51,7 +51,8 @@ TRUSTED = [
 ]
 ASSUMPTIONS = [
     "handle-free workflows: 3-6 tasks of one int argument; a body is built from the argument, constants, lazy `+`, calls of tasks with a "
-    "larger index and cond(c, a, b); a third of the workflows use one call expression eagerly and again inside lazily evaluated sites "
+    "larger index and cond(c, a, b); a quarter of the workflows reach the same call through two different expressions under one parent "
+    "(f(t) and f(ident(t)): backend hit or collapse onto the running twin, depending on the order); a third of the workflows use one call expression eagerly and again inside lazily evaluated sites "
     "(cond branches) under the same parent job - the scheduler evaluates equal expressions of one parent once (`_pending_expr`), the "
     "model mirrors that with the memo of `evalM` (the theorems about `Ev` speak of workflows without such duplicates); no failing task (which jobs got recorded before a failure stops the execution is "
     "timing dependent by design); tasks carry limits over resources r0, r1, g",
@@ -93,6 +94,7 @@ SIG_FORK = "C07-fork-thread-child-edge-timing"
 SIG_NEW = "C07-call-graph-differs-across-schedules"
 
 RES = ["r0", "r1", "g"]
+HARD_STOP = {"quick": 60, "thorough": 540}      # seconds since the start of the check after which no further schedule is started
 T_SLOW, T_FORKMAIN = 3, 99
 
 
@@ -164,6 +166,22 @@ def gen_shared_body(rng, i, n):
     return ("add", e, ("cond", c, ("cond", e, e, other), ("add", e, other)))
 
 
+def gen_twin_body(rng, i, n):
+    """the same call reached through two DIFFERENT expressions under one parent: f(t) and f(ident(t)) (ident = task n-1, whose body
+    returns its argument).  The second job is a backend hit, or is collapsed onto the first one while that is still running,
+    depending on the completion order; the parent lists the call hash twice either way"""
+    ident = n - 1
+    f = rng.choice(list(range(i + 1, n - 1)) or [ident])
+    t = rng.choice([("arg",), ("lit", 1), ("add", ("arg",), ("lit", 2))])
+    e1, e2 = ("call", f, t), ("call", f, ("call", ident, t))
+    k = rng.random()
+    if k < 0.5:
+        return ("add", e1, e2)
+    if k < 0.75:
+        return ("add", e2, ("add", e1, gen_tm(rng, i, n, 1)))
+    return ("add", e1, ("cond", ("call", ident, ("lit", 1)), e2, ("lit", 0)))
+
+
 class Flow:
     """handle-free workflow: bodies[i] = Tm of task t<i>, limits[i] = None | list | dict"""
 
@@ -192,7 +210,7 @@ def tup(x):
     return tuple(tup(y) for y in x) if isinstance(x, list) else x
 
 
-def gen_flow(rng, serial=False, shared=False):
+def gen_flow(rng, serial=False, shared=False, twin=False):
     n = rng.choice([3, 4, 4, 5, 6])
     bodies = [None] * n
 
@@ -203,6 +221,11 @@ def gen_flow(rng, serial=False, shared=False):
             bodies[i] = gen_tm(rng, i, n, rng.choice([1, 2, 2, 3]))
             if i > 0 or ncalls(bodies[i]) >= 2:          # the root job has at least two children
                 break
+    if twin:
+        bodies[n - 1] = ("arg",)
+        for i in range(n - 2):
+            if i == 0 or rng.random() < 0.3:
+                bodies[i] = gen_twin_body(rng, i, n)
     if shared:
         for i in range(n - 1):
             if i == 0 or rng.random() < 0.3:
@@ -444,10 +467,13 @@ def explore(ctx, env, label, kind, spec_json, expr_fn, task_ids, handle_ids, mod
             return rec, ctl.choices
         n0 = len(runs)
         for _ in enumerate_schedules(run_with, cap):
-            pass
-        exhausted = len(runs) - n0 < cap
+            if ctx.elapsed() > HARD_STOP[ctx.tier] and len(runs) - n0 >= 2:
+                break
+        exhausted = len(runs) - n0 < cap and ctx.elapsed() <= HARD_STOP[ctx.tier]
         if not exhausted:
             for k in range(nrandom):
+                if ctx.elapsed() > HARD_STOP[ctx.tier]:
+                    break
                 ctl = make_ctl(seed=ctx.rng.randrange(1 << 30))
                 status, val, rows, obs = run_once(env, expr_fn, cfg, ctl, task_ids, handle_ids)
                 rec = dict(limits=cname, schedule=[c for _, c in ctl.choices], status=status, value=val, rows=rows, obs=obs,
@@ -692,6 +718,8 @@ def corpus_flows():
         "shared-in-cond-branch": Flow([("add", C(1, A), ("cond", C(2, A), C(1, A), L(0))), ("add", A, L(10)), A], [None, None, None], 1),
         "shared-lazy-add": Flow([("add", ("add", C(1, A), L(1)), ("cond", C(2, A), ("add", C(1, A), L(1)), C(1, A))), ("add", A, L(10)), A],
                                 [None, ["r0"], ["r0"]], 1),
+        # the same call through two different expressions under one parent: main() = [work(1), work(ident(1))]
+        "twin-siblings": Flow([("add", C(1, A), C(1, C(2, A))), ("add", A, L(10)), A], [None, None, None], 1),
         "deep": Flow([C(1, C(2, C(3, A))), ("add", A, C(2, A)), ("cond", A, C(3, A), L(4)), ("add", A, L(1))],
                      [["g"], ["g"], ["g"], ["g"]], 1),
     }
@@ -734,7 +762,8 @@ def run(ctx):
         while ctx.elapsed() < budget and k < ctx.n(400, 4000):
             r = rng.random()
             if r < 0.68:
-                check_flow(ctx, env, gen_flow(rng, serial=rng.random() < 0.3, shared=rng.random() < 0.35), "flow%d" % k, thorough)
+                mode = rng.random()
+                check_flow(ctx, env, gen_flow(rng, serial=rng.random() < 0.3, shared=mode < 0.3, twin=0.3 <= mode < 0.55), "flow%d" % k, thorough)
             elif r < 0.88:
                 check_hflow(ctx, env, gen_hflow(rng), "hflow%d" % k, thorough, recount)
             else:
